@@ -88,6 +88,10 @@ head = subprocess.run(['git', '-C', VERIF, 'rev-parse', '--short', 'HEAD'], stdo
 hist.append(dict(verif_commit=head, tier=a.tier, caught_by=res.get('caught_by', []), missed_by=res.get('missed_by', [])))
 with open(hp, 'w') as f:
     json.dump(hist, f, indent=1)
+if res.get('errors'):
+    print('   !! HARNESS ERROR (exit 2) in: %s' % [e['check'] for e in res['errors']])
+    for e in res['errors']:
+        print('      ' + ' | '.join(e['tail'])[-400:])
 print('%s-%s valid=%s tests=%s demo(without/with)=%s/%s caught_by=%s missed_by=%s' % (
     a.pid, a.n, res['valid_seed'], res.get('tests_pass_with_patch'), rc0, res.get('demo_with_patch', {}).get('exit'),
     res.get('caught_by'), res.get('missed_by')))
